@@ -1,6 +1,7 @@
 import QrlewModel.Lemmas.Rules
 import QrlewModel.Model.KTree
 import QrlewModel.Generated.Rules
+import QrlewModel.Props.C13
 /-!
 # C02 — no un-noised path from protected tables to a DP / published / public result
 
@@ -160,6 +161,18 @@ theorem generated_no_unnoised_path (synthetic hard : Bool) (t : KTree NodeKind) 
     (d : Deriv) (hc : Consistent d (annot (fun k => rulesFor k synthetic hard) t))
     (hroot : isRaw d.output = false) : exposed prot red d t = false :=
   no_unnoised_path _ prot red leafK (generated_local_safe synthetic hard) t hwf d hc hroot
+
+/-- the root labels `rewrite_with_differential_privacy` accepts are never raw -/
+theorem accDP_not_raw (l : Label) (h : accDP l = true) : isRaw l = false := by
+  cases l <;> simp_all [accDP, isRaw]
+
+/-- **End to end with the search of C13**: whatever derivation the compiler's search *applies* for a DP rewriting — with the
+rule table regenerated from the code, on any tree — has no un-noised path; and when the search answers "unreachable" nothing
+is released at all. -/
+theorem chosen_dp_rewriting_safe (synthetic hard : Bool) (t : KTree NodeKind) (hwf : WFK leafK t) (d : Deriv)
+    (h : choose accDP (annot (fun k => rulesFor k synthetic hard) t) = some d) : exposed prot red d t = false := by
+  obtain ⟨hc, ha, _⟩ := C13.choose_optimal accDP _ d h
+  exact generated_no_unnoised_path synthetic hard t hwf d hc (accDP_not_raw _ ha)
 
 /-- Non-vacuity: `SELECT sum(x) FROM protected` — the DP derivation hides the table, the tracked one exposes it. -/
 example :
